@@ -284,9 +284,13 @@ def run_region(ctx, case):
     # scale the real code fed into design_space.update
     scale_attr = {"paveba": "r_t", "pavebagp": "alpha_t", "partialgp": "alpha_t", "vogp": "beta", "epal": "beta",
                   "auer": "beta_t", "aueremp": "beta_t"}[alg]
-    used = np.asarray(getattr(o, scale_attr), dtype=float)
-    bad = None
+    used_raw = getattr(o, scale_attr)
     S_sorted = list(o.S) if alg in ("auer", "aueremp") else None  # Auer: row r of beta_t belongs to list(S)[r]
+    if isinstance(used_raw, dict):
+        # Auer keeps its widths keyed by design (either form is fine for the property): realign with list(S)
+        used_raw = [used_raw[d] for d in S_sorted]
+    used = np.asarray(used_raw, dtype=float)
+    bad = None
     for i in range(K):
         reg = ds.confidence_regions[i]
         if i not in active:
